@@ -12,6 +12,9 @@
 //	C <id> <noauto 0|1> <maxretries>      schedule case; items follow
 //	I lock|try <name> <T> <size> | I unlock <j> | I close | I adv <ns> | I hold <j> pre|post|both | I step <j>
 //	I compete <name> <size> | I probe
+//	I ubegin <j> | I usend <j> | I uend <j>    Unlock of hold j in steps: the call starts (its RPC is kept before the server),
+//	                                           the RPC reaches the server (the reply is kept), the reply gets back
+//	I ufault <j>                               the first attempt of the next Unlock RPC of hold j fails with Unavailable (ignored by the model)
 //	X
 //	R <id> <maxretries> <rpc lock|try|unlock|renew|autorenew> <code> <code> ...      retry case (0 = the call goes through)
 //
@@ -116,7 +119,7 @@ func readCases(path string) ([]*ccase, error) {
 					continue
 				}
 				it.name, it.t, it.size = w[2], int32(atoi(w[3])), int32(atoi(w[4]))
-			case "unlock", "step":
+			case "unlock", "step", "ubegin", "usend", "uend", "ufault":
 				if len(w) < 3 {
 					continue
 				}
@@ -161,6 +164,9 @@ type interposer struct {
 	curCall int               // index of the Lock/TryLock/Unlock call of the main goroutine in progress
 	arm     map[int]string    // hold index -> pre|post|both
 	gates   map[int]*gate     // hold index -> gate a Renew of it is waiting at
+	uarm    map[int]bool      // hold index -> its Unlock RPC is run in steps (kept before and after the server)
+	ufail   map[int]int       // hold index -> attempts of its Unlock RPC that still fail with Unavailable
+	ugates  map[int]*gate     // hold index -> gate its Unlock RPC is waiting at
 	faults  map[string][]int  // rpc kind -> status codes of its next calls (0 = go through; -1 = a non-status error)
 	attempt map[string]int
 	retry   bool              // retry case: log every attempt (#att)
@@ -263,6 +269,27 @@ func (p *interposer) Unlock(ctx context.Context, in *pb.UnlockRequest, _ ...grpc
 	}
 	p.mu.Lock()
 	j := p.curCall
+	if k, ok := p.keyIdx[in.Key]; ok {
+		j = k
+	}
+	if p.tear {
+		p.mu.Unlock()
+		return &pb.UnlockResponse{Name: in.Name, Unlocked: true}, nil
+	}
+	if p.ufail[j] > 0 {
+		p.ufail[j]--
+		p.w(fmt.Sprintf("#ufail unlock %d %d", j, p.at()))
+		p.mu.Unlock()
+		return nil, status.Error(codes.Unavailable, "injected")
+	}
+	stepped := p.uarm[j]
+	if stepped {
+		p.uwait(j)
+		if p.tear {
+			p.mu.Unlock()
+			return &pb.UnlockResponse{Name: in.Name, Unlocked: true}, nil
+		}
+	}
 	if p.closed {
 		p.w(fmt.Sprintf("fail unlock %d %d", j, p.at()))
 		p.mu.Unlock()
@@ -271,14 +298,42 @@ func (p *interposer) Unlock(ctx context.Context, in *pb.UnlockRequest, _ ...grpc
 	p.mu.Unlock()
 	at := p.at()
 	resp, err := p.svc.Unlock(p.sctx, in)
+	p.mu.Lock()
+	defer p.mu.Unlock()
 	if err != nil || resp == nil {
 		p.w(fmt.Sprintf("fail unlock %d %d", j, at))
 		return resp, err
 	}
-	p.mu.Lock()
 	p.w(fmt.Sprintf("rpc unlock %d %s %s 0 %d %s %s", j, in.Name, p.keyTok(in.Key, true), at, b01(resp.Unlocked), etok(resp.Error)))
-	p.mu.Unlock()
+	if stepped {
+		delete(p.uarm, j)
+		p.uwait(j)
+		if p.tear {
+			return &pb.UnlockResponse{Name: in.Name, Unlocked: true}, nil
+		}
+	}
 	return resp, nil
+}
+
+// uwait parks the Unlock RPC of hold j (p.mu held on entry and on return).
+func (p *interposer) uwait(j int) {
+	g := &gate{ch: make(chan struct{})}
+	p.ugates[j] = g
+	p.mu.Unlock()
+	<-g.ch
+	p.mu.Lock()
+}
+
+func (p *interposer) urelease(j int) bool {
+	p.mu.Lock()
+	g := p.ugates[j]
+	delete(p.ugates, j)
+	p.mu.Unlock()
+	if g == nil {
+		return false
+	}
+	close(g.ch)
+	return true
 }
 
 func (p *interposer) wait(j int) {
@@ -403,7 +458,7 @@ func boot(w func(string), noauto bool, maxRetries int) (*world, error) {
 	sctx := conn()
 	x.xctx = conn()
 	x.ip = &interposer{svc: x.svc, sctx: sctx, start: time.Now(), w: w, keyIdx: map[string]int{}, arm: map[int]string{},
-		gates: map[int]*gate{}, faults: map[string][]int{}, attempt: map[string]int{}}
+		gates: map[int]*gate{}, faults: map[string][]int{}, attempt: map[string]int{}, uarm: map[int]bool{}, ufail: map[int]int{}, ugates: map[int]*gate{}}
 	cctx, cancel := context.WithCancel(context.Background())
 	x.cancel = cancel
 	x.cl = client.NewVerifClient(cctx, x.ip, closerFn(func() error {
@@ -426,9 +481,27 @@ func (x *world) teardown() {
 	for j := range x.ip.gates {
 		js = append(js, j)
 	}
+	ujs := []int{}
+	for j := range x.ip.ugates {
+		ujs = append(ujs, j)
+	}
 	x.ip.mu.Unlock()
 	for _, j := range js {
 		x.ip.release(j)
+	}
+	for _, j := range ujs {
+		x.ip.urelease(j)
+	}
+	synctest.Wait()
+	// an Unlock kept before the server parks once more after it: release again
+	x.ip.mu.Lock()
+	ujs = ujs[:0]
+	for j := range x.ip.ugates {
+		ujs = append(ujs, j)
+	}
+	x.ip.mu.Unlock()
+	for _, j := range ujs {
+		x.ip.urelease(j)
 	}
 	synctest.Wait()
 	for _, c := range x.scancel {
@@ -521,6 +594,31 @@ func runSchedule(c *ccase, w func(string)) {
 				return
 			}
 			w(fmt.Sprintf("uret %d %d", it.j, x.at()))
+		case "ufault":
+			x.ip.mu.Lock()
+			x.ip.ufail[it.j] = 1
+			x.ip.mu.Unlock()
+		case "ubegin":
+			if it.j < 0 || it.j >= len(x.holds) || x.holds[it.j] == nil || !x.holds[it.j].Locked {
+				continue
+			}
+			x.ip.mu.Lock()
+			x.ip.curCall = it.j
+			x.ip.uarm[it.j] = true
+			x.ip.mu.Unlock()
+			w(fmt.Sprintf("ucall %d %d", it.j, x.at()))
+			lk, j := x.holds[it.j], it.j
+			go func() {
+				lk.Unlock()
+				x.ip.mu.Lock()
+				tear := x.ip.tear
+				x.ip.mu.Unlock()
+				if !tear {
+					w(fmt.Sprintf("uret %d %d", j, x.at()))
+				}
+			}()
+		case "usend", "uend":
+			x.ip.urelease(it.j)
 		case "close":
 			w(fmt.Sprintf("#call close %d", x.at()))
 			ok := x.mainCall(func() { x.cl.Close() })
